@@ -169,6 +169,149 @@ theorem earlyStopBody_esIdle (cfg : Cfg) (hc1 : cfg.esFailureFinishesOp = true) 
           exact esCompute_esIdle cfg hc1 hc2 _ _ es
             (putEsOp_esIdleExcept_self st { o with active := true, shouldStop := false } (h.except _))
 
+/-- the same from a state in which the checked trial's OWN record may be ACTIVE (what a server that died inside
+    an earlier check of that trial leaves behind): the repaired service recomputes such a record, so the check
+    of a mutable trial leaves the study idle.  When the stored answer is returned the record is a finished
+    one and the state is unchanged, so no proviso is needed. -/
+theorem earlyStopBody_esIdle_of_except (cfg : Cfg) (hc1 : cfg.esFailureFinishesOp = true)
+    (hc2 : cfg.esAnswerFinishesOp = true) (hra : cfg.esResumesActive = true)
+    (st : Study) (id : Nat) (t : Trial) (ht : st.findTrial id = some t) (hm : t.state.mutable = true)
+    (es : EsOutcome) (h : EsIdleExcept st id) : EsIdle (earlyStopBody cfg st id es).2 := by
+  unfold earlyStopBody
+  simp only [ht, hm, Bool.not_true, Bool.false_eq_true, if_false]
+  split
+  · exact esCompute_esIdle cfg hc1 hc2 _ id es
+      (putEsOp_esIdleExcept_self st { trialId := id, active := true, shouldStop := false } h)
+  · rename_i o ho
+    split
+    · rename_i hs
+      -- the stored answer is returned: the record is finished, nothing is written
+      have hact : o.active = false := by
+        unfold esReturnsStored at hs
+        rw [hra] at hs
+        cases hoa : o.active
+        · rfl
+        · rw [hoa] at hs; simp at hs
+      intro j x hx
+      by_cases e : j = id
+      · subst e; rw [ho] at hx; cases hx; exact hact
+      · exact h j x e hx
+    · have hid : o.trialId = id := by
+        unfold esOpOf at ho
+        have := List.find?_some ho
+        exact beq_iff_eq.mp this
+      subst hid
+      exact esCompute_esIdle cfg hc1 hc2 _ _ es
+        (putEsOp_esIdleExcept_self st { o with active := true, shouldStop := false } h)
+
+/-! ### 4b. from ANY state: the check finishes its own record and opens no other
+
+A crash inside `CheckTrialEarlyStoppingState` can also leave the record of ANOTHER trial ACTIVE (a decision for a
+trial without a record is stored as "create ACTIVE, then set DONE": `decisionWrites`), so `EsIdleExcept` need not
+hold of every crash state.  Without any idleness hypothesis: -/
+
+theorem putEsOp_active_other (st : Study) (o : EsOp) (ho : o.active = false) (j : Nat) (x : EsOp)
+    (hx : esOpOf (st.putEsOp o) j = some x) (hact : x.active = true) : esOpOf st j = some x := by
+  by_cases e : j = o.trialId
+  · subst e
+    rw [esOpOf_putEsOp] at hx
+    cases hx
+    rw [ho] at hact; cases hact
+  · rwa [esOpOf_putEsOp_ne st o j e] at hx
+
+theorem applyDecisions_active_other (st : Study) (ds : List (Nat × Bool)) (j : Nat) (x : EsOp)
+    (hx : esOpOf (applyDecisions st ds) j = some x) (hact : x.active = true) : esOpOf st j = some x := by
+  induction ds generalizing st with
+  | nil => exact hx
+  | cons d ds ih =>
+    obtain ⟨i, b⟩ := d
+    simp only [applyDecisions] at hx
+    exact putEsOp_active_other st _ rfl j x (ih _ hx) hact
+
+/-- an ACTIVE record of another trial seen after `esCompute` was there, unchanged, before -/
+theorem esCompute_active_other (cfg : Cfg) (st : Study) (id : Nat) (es : EsOutcome) (j : Nat) (x : EsOp) (hj : j ≠ id)
+    (hx : esOpOf (esCompute cfg st id es).2 j = some x) (hact : x.active = true) : esOpOf st j = some x := by
+  unfold esCompute at hx
+  split at hx
+  · split at hx
+    · rwa [esOpOf_putEsOp_ne st _ j hj] at hx
+    · exact hx
+  · rename_i ds delta
+    have e0 : ∀ k, esOpOf (st.updateMetadata cfg delta).2 k = esOpOf st k :=
+      fun k => esOpOf_of_esOps_eq (updateMetadata_esOps cfg st delta) k
+    simp only at hx
+    split at hx
+    · split at hx
+      · rw [esOpOf_putEsOp_ne _ (esDone id) j hj, e0] at hx; exact hx
+      · rw [e0] at hx; exact hx
+    · split at hx
+      · split at hx
+        · rw [esOpOf_putEsOp_ne _ (esDone id) j hj] at hx
+          rw [← e0]; exact applyDecisions_active_other _ ds j x hx hact
+        · rw [← e0]; exact applyDecisions_active_other _ ds j x hx hact
+      · rw [← e0]; exact applyDecisions_active_other _ ds j x hx hact
+
+/-- `esCompute` of the repaired service leaves the checked trial's own record finished, from any state -/
+theorem esCompute_own_finished (cfg : Cfg) (hc1 : cfg.esFailureFinishesOp = true) (hc2 : cfg.esAnswerFinishesOp = true)
+    (st : Study) (id : Nat) (es : EsOutcome) (o : EsOp) (ho : esOpOf (esCompute cfg st id es).2 id = some o) :
+    o.active = false := by
+  unfold esCompute at ho
+  split at ho
+  · simp only [hc1, if_true] at ho
+    have := esOpOf_putEsOp st { trialId := id, active := false, shouldStop := false }
+    simp only at this
+    rw [this] at ho; cases ho; rfl
+  · rename_i ds delta
+    simp only [hc2, if_true, Bool.and_true] at ho
+    have hd : ∀ s : Study, esOpOf (s.putEsOp (esDone id)) id = some (esDone id) := fun s => esOpOf_putEsOp s (esDone id)
+    split at ho
+    · rw [hd] at ho; cases ho; rfl
+    · split at ho
+      · rename_i o' ho'
+        split at ho
+        · rw [hd] at ho; cases ho; rfl
+        · rename_i hact
+          simp only at ho
+          rw [ho'] at ho; cases ho
+          simpa using hact
+      · rename_i ho'
+        simp only at ho
+        rw [ho'] at ho; cases ho
+
+/-- **from any study state** (no idleness hypothesis at all) a check of a mutable trial `id` by the repaired
+    service leaves `id`'s record finished, and every ACTIVE record of another trial seen afterwards was there,
+    unchanged, before: the check opens no record that it does not finish. -/
+theorem earlyStopBody_finishes_own_opens_none (cfg : Cfg) (hc1 : cfg.esFailureFinishesOp = true)
+    (hc2 : cfg.esAnswerFinishesOp = true) (hra : cfg.esResumesActive = true)
+    (st : Study) (id : Nat) (t : Trial) (ht : st.findTrial id = some t) (hm : t.state.mutable = true)
+    (es : EsOutcome) :
+    (∀ o, esOpOf (earlyStopBody cfg st id es).2 id = some o → o.active = false) ∧
+    (∀ j x, j ≠ id → esOpOf (earlyStopBody cfg st id es).2 j = some x → x.active = true → esOpOf st j = some x) := by
+  unfold earlyStopBody
+  simp only [ht, hm, Bool.not_true, Bool.false_eq_true, if_false]
+  split
+  · refine ⟨fun o ho => esCompute_own_finished cfg hc1 hc2 _ id es o ho, fun j x hj hx hact => ?_⟩
+    have := esCompute_active_other cfg _ id es j x hj hx hact
+    rwa [esOpOf_putEsOp_ne st { trialId := id, active := true, shouldStop := false } j hj] at this
+  · rename_i o ho
+    have hid : o.trialId = id := by
+      unfold esOpOf at ho
+      have := List.find?_some ho
+      exact beq_iff_eq.mp this
+    split
+    · rename_i hs
+      have hact : o.active = false := by
+        unfold esReturnsStored at hs
+        rw [hra] at hs
+        cases hoa : o.active
+        · rfl
+        · rw [hoa] at hs; simp at hs
+      exact ⟨fun o' ho' => by rw [ho] at ho'; cases ho'; exact hact, fun j x _ hx _ => hx⟩
+    · subst hid
+      refine ⟨fun o' ho' => esCompute_own_finished cfg hc1 hc2 _ _ es o' ho', fun j x hj hx hact => ?_⟩
+      have := esCompute_active_other cfg _ _ es j x hj hx hact
+      rwa [esOpOf_putEsOp_ne st { o with active := true, shouldStop := false } j hj] at this
+
 /-! ### 5. no other RPC body touches `esOps` -/
 
 @[simp] theorem putTrial_esOps (st : Study) (t : Trial) : (st.putTrial t).esOps = st.esOps := rfl
@@ -312,6 +455,6 @@ theorem earlyStopBody_reaches_algorithm (cfg : Cfg) (hr : cfg.esRecycle = true) 
     have hact := h id o ho
     refine ⟨hact, ?_⟩
     unfold earlyStopBody
-    simp [ht, hm, ho, hact, hr]
+    simp [ht, hm, ho, hact, hr, esReturnsStored]
 
 end VizierModel.Svc
